@@ -1162,6 +1162,21 @@ func (ex *Exec) appendOp(st *State, c *ssa.Call, ord int) {
 	res := st.sc.fresh("app_res", SSlice)
 	st.sc.assert(eq(res, ite(inplace, mkSlice(slArr(s), slOff(s), newLen, slCap(s)), mkSlice(id, intLit(0), newLen, ncap))))
 	st.vals[c] = res
+	if b, ok := et.Underlying().(*types.Basic); ok && b.Kind() == types.Uint8 {
+		// appending to a byte slice: the text of the result is the text of the old slice followed by the text appended,
+		// and the text of every slice over another array is what it was
+		var srcStr Term
+		if isStringType(args[1].Type()) {
+			srcStr = ex.val(st, args[1])
+		} else {
+			srcStr = st.stringOfBytes(oldSnapS, ex.val(st, args[1]))
+		}
+		oldStr := st.stringOfBytes(oldSnapS, s)
+		newStr := st.stringOfBytes(st.heap, res)
+		st.sc.assert(eq(newStr, app(SStr, "gstr.cat", oldStr, srcStr)))
+		oldOf, newOf := "gstr.of."+st.symIn(oldSnapS, f.Name), "gstr.of."+st.symIn(st.heap, f.Name)
+		st.sc.emit("(assert (forall ((a Int) (o Int) (l Int)) (! (=> (and (not (= a %[3]s)) (not (= a %[4]s))) (= (%[1]s a o l) (%[2]s a o l))) :pattern ((%[1]s a o l)))))", newOf, oldOf, slArr(s).S, id.S)
+	}
 	{
 		// forward triggers: known elements of the old slice / of the appended values determine elements of the result
 		j := Term{"j!a", SInt}
